@@ -126,7 +126,7 @@ def main():
            "failed_info": [i for l, i in ctx.failed if l == label][:1]}
     if verbose:
         print(f"replay of {payload['case']} :: {label} on plain unyt at {os.environ.get('VERIF_REPO', '/repo')}")
-        print(" inputs:", json.dumps({k: float(__import__('fractions').Fraction(v)) for k, v in payload["model"].items()}))
+        print(" inputs:", json.dumps({k: (float(__import__('fractions').Fraction(v)) if ":" not in v else v) for k, v in payload["model"].items()}))
         print(" outcome:", outcome, detail or "")
         for l, i in ctx.failed:
             print(" FAILED obligation:", l, i)
